@@ -6,6 +6,7 @@ From VQ Require Import Num Model.Vec Model.Losses Proofs.LossProofs Glue.LossGlu
 From VQ Require Import Proofs.StretchJensen.
 From VQ Require Import Proofs.StretchEntropyFull.
 From VQ Require Import Glue.Pin_fp_C17.
+From VQ Require Import Glue.LfqLossGlue.
 Import ListNotations.
 Open Scope R_scope.
 
@@ -134,6 +135,33 @@ Theorem C17_tie_source_footprint :
   fp_C17.fp_C17 = pinned_fp_C17.
 Proof. exact (@Pin_fp_C17.pin_fp_C17). Qed.
 Print Assumptions C17_tie_source_footprint.
+
+Theorem C17_lfq_commit_follows_live_weight :
+  forall cw mse : R,
+       0 < cw -> lfq_commit_term true cw mse = mse /\ lfq_commit_contribution true cw mse = cw * mse.
+Proof. exact (@LfqLossGlue.lfq_commit_follows_live_weight). Qed.
+Print Assumptions C17_lfq_commit_follows_live_weight.
+
+Theorem C17_lfq_commit_zero_weight :
+  forall (training : bool) (cw mse : R), cw <= 0 -> lfq_commit_term training cw mse = 0.
+Proof. exact (@LfqLossGlue.lfq_commit_zero_weight). Qed.
+Print Assumptions C17_lfq_commit_zero_weight.
+
+Theorem C17_lfq_commit_zero_in_eval :
+  forall cw mse : R, lfq_commit_term false cw mse = 0 /\ lfq_commit_contribution false cw mse = 0.
+Proof. exact (@LfqLossGlue.lfq_commit_zero_in_eval). Qed.
+Print Assumptions C17_lfq_commit_zero_in_eval.
+
+Theorem C17_tie_lfq_commit_guard :
+  forall weight_pos training : bool,
+       g_lfq_commit.g_lfq_commit weight_pos training = training && weight_pos.
+Proof. exact (@LfqLossGlue.glue_lfq_commit_guard). Qed.
+Print Assumptions C17_tie_lfq_commit_guard.
+
+Theorem C17_tie_lfq_commit_guard_atoms :
+  g_lfq_commit.g_lfq_commit_atoms = ["self_commitment_loss_weight_gt_0_0"; "self_training"].
+Proof. exact (@LfqLossGlue.glue_lfq_commit_guard_atoms). Qed.
+Print Assumptions C17_tie_lfq_commit_guard_atoms.
 (* The full chain  0 <= mean_i H(p_i) <= H(mean_i p_i) <= ln K  for ANY token distributions, including entries below the clamp eps
    and exact zeros, is C17_entropy_chain_full above (Proofs/StretchEntropyFull.v: t |-> - t ln (max t eps) is the minimum of a linear
    and a concave function; supporting-line Jensen).  The earlier partial statements (entries >= eps; two tokens) are kept as corollaries.
